@@ -9,6 +9,7 @@ AttrTable}.lean.
 import Emboss.Lemmas.ConstraintsTypes
 import Emboss.Lemmas.ConstraintsDefaults
 import Emboss.Lemmas.ConstraintsReq
+import Emboss.Lemmas.ConstraintsLookup
 import Emboss.Generated.Prelude
 namespace Emboss.Constraints
 open Emboss.Generated Emboss.Generated.Prelude
@@ -113,10 +114,10 @@ theorem exGood_wf : ∀ c ∈ allTypes exGood, TypeWF c.2 := by
       simp [TypeInfo.fields, exStruct] at hf
       subst hf
       exact ⟨2, 2, rfl, rfl⟩
-    · intro v hv; simp [getAttr, exStruct] at hv
+    · intro v hv; simp [getAttr, Attr.named, exStruct] at hv
   · refine ⟨fun fs h => by simp [exUInt] at h, ?_, ?_⟩
     · intro f hf; simp [TypeInfo.fields, exUInt] at hf
-    · intro v hv; simp [getAttr, exUInt] at hv
+    · intro v hv; simp [getAttr, Attr.named, exUInt] at hv
 
 example : check exGood = [] := by decide +kernel
 example : Realisable exGood :=
@@ -260,18 +261,8 @@ example : isReserved "int" = true ∧ isReserved "class" = true ∧ isReserved "
 /-- On an attribute list without back-end-qualified attributes the front end's lookup is the
 documented one. -/
 theorem C14_lookup_unqualified (attrs : List Attr) (n : String) (h : UnqAttrs attrs) :
-    getAttr attrs n = declared attrs n := by
-  unfold getAttr declared
-  congr 1
-  induction attrs with
-  | nil => rfl
-  | cons a rest ih =>
-    have ha : a.backEnd = "" := h a (List.mem_cons_self ..)
-    have hr : UnqAttrs rest := fun b hb => h b (List.mem_cons_of_mem _ hb)
-    simp only [List.find?_cons, ha, and_true]
-    split
-    · rfl
-    · exact ih hr
+    getAttr attrs n = declared attrs n :=
+  getAttr_eq_declared attrs n h
 
 /-- COUNTEREXAMPLE (real defect, replayed by the harness; open finding): the model — like the
 real front end — accepts a 2-byte `UInt` whose only byte order is the back-end-qualified
